@@ -16,7 +16,7 @@ import (
 // another request".
 
 func c03E2E(w *W) {
-	tran := w.simFallback([]string{"inproc", "sim", "simipc", "tcp", "ipc", "tls+tcp"}[w.Choose(simrt.SShape, 6)])
+	tran := w.simFallback([]string{"inproc", "sim", "simipc", "tcp", "ipc", "tls+tcp", "ws", "wss"}[w.Choose(simrt.SShape, 8)])
 	nq := 1 + w.Choose(simrt.SShape, 3)
 	nrep := 1 + w.Choose(simrt.SShape, 2)
 	nrc := 1 + w.Choose(simrt.SShape, 3)
